@@ -21,6 +21,7 @@ EXPLANATION = ("Rules over Shuffle/Take/Slice/Reservoir/Where/Sort/Riffle/Chunk/
                "None-patterns of (min,max); nullable constructor parameters are never operands of an order comparison "
                "without a None test on the path; _in_min_max is two-sided; Batch and Unbatch index every key uniformly.")
 EXPLANATION += " R1 also: pipes.Cache replay-buffer protocol; R2: one fresh generator per filter() call; R7: Sort keeps the caller's key order."
+EXPLANATION += " R2 also: environments.Shuffle never re-binds its seed; R8: Cache/Chunk/Densify instances are per environment; R9: Reservoir's uniforms cannot reach log()/power base as 0."
 
 EF = "coba/environments/filters.py"
 PF = "coba/pipes/filters.py"
